@@ -26,7 +26,8 @@ open RsslVerif.Lemmas.SpecExpand RsslVerif.Lemmas.MacroPaste
 open RsslVerif.Lemmas.MacroTameP RsslVerif.Lemmas.MacroTamePSpec RsslVerif.Lemmas.MacroTamePRun
 
 /-- Tie to the source: the shapes of `preprocess_command`, `apply_single_macro`, `preprocess_initial_file`,
-`Token::is_whitespace`, `compile()` and of every `MacroSearchPosition` the model was written against. -/
+`Token::is_whitespace`, `compile()`, of every `MacroSearchPosition`, of the trimming loops and their uses, and of
+`FileLoader::load` the model was written against. -/
 theorem source_shape :
     definingDirectives = ["define", "undef"] ∧ defineRetainsThenPushes = true ∧ undefRetains = true ∧
     argsShareDisabled = true ∧ initialDefinesUseDefinePath = true ∧
@@ -47,12 +48,30 @@ theorem source_shape :
       ["search_pos.early_function_pos",
        "search_pos.last_macro_function_index == macro_index && i < search_pos.next_pos",
        "activate_pos < search_pos.next_pos", "activate_pos = tokens.len() - trimmed.len()",
-       "trimmed = trim_whitespace_start(&tokens[i + 1..])", "pos.next_pos < tokens.len()"] ∧
+       "trimmed = trim_whitespace_and_endlines_start(&tokens[i + 1..])", "pos.next_pos < tokens.len()"] ∧
+    -- which white space is skipped where (fix f08088c): `trimStart`/`trimEnd` leave line ends, `trimStartAll` does not;
+    -- `splitArgs` reaches the `(` with `trimStartAll`, trims every argument with `trim`; `readArgs`: the arity tests
+    trimLoops =
+      [["trim_whitespace_start", "split_first", "tok.is_whitespace() && *tok != Token::Endline"],
+       ["trim_whitespace_end", "split_last", "tok.is_whitespace() && *tok != Token::Endline"],
+       ["trim_whitespace_and_endlines_start", "split_first", "tok.is_whitespace()"]] ∧
+    argumentReading =
+      ["remaining = trim_whitespace_and_endlines_start(remaining)", "arg = trim_whitespace(&remaining[..pos])",
+       "!(args.len() == 1 && trim_whitespace_and_endlines_start(args[0]).is_empty())",
+       "args.len() as u64 != macro_def.num_params"] ∧
     -- the nesting limit of #include: `includeFile` with fuel `maxIncludeDepth` answers `Err.includeFuel` exactly
     -- where the code answers `IncludeDepthExceeded` (the driver runs the model with this fuel)
-    maxIncludeDepth = 200 ∧ includeDepthCheckedBeforeLoad = true := by
+    maxIncludeDepth = 200 ∧ includeDepthCheckedBeforeLoad = true ∧
+    -- what identifies a file (fix d66a6d7; `includeFile`: the once-set is keyed by the real name the handler reports)
+    fileIdentity =
+      ["self.file_name_remap.get(file_name)", "self.include_handler.load(file_name, parent_name)",
+       "self.real_name_remap.get(&file_data.real_name)", "self.real_name_remap.insert(real_name, id)",
+       "self.file_name_remap.insert(file_name.to_string(), id)", "self.pragma_once_files.contains(&id)",
+       "self.source_manager.get_contents(id)", "self.pragma_once_files.insert(file_id)"] ∧
+    -- fix 3c81ed5 (`initialMacros`: `hasLineBreak`)
+    apiDefineLineBreakRejected = true := by
   refine ⟨by decide, by decide, by decide, by decide, by decide, by decide, by decide, ?_, by decide, by decide,
-    by decide, by decide, by decide, by decide⟩
+    by decide, by decide, by decide, by decide, by decide, by decide, by decide, by decide⟩
   intro t; cases t <;> decide
 
 /-! ## Termination -/
@@ -138,13 +157,14 @@ example : applyLoop [⟨⟨"N", false, 0, [⟨.int "4", true⟩, ⟨.punct "+", 
 
 /-- **function_like_is_substitution** (no self reference). Invoking a function-like macro with `n ≥ 1` parameters on
 arguments `a₁ , … , aₙ` -- each with balanced parentheses and commas only inside them (`IsArg`), possibly preceded by
-blanks before the `(` -- yields its body with every parameter replaced by the corresponding argument, trimmed of
+white space before the `(`: blanks, comments and (since fix f08088c) line ends, the invocation may continue on the next
+line -- yields its body with every parameter replaced by the corresponding argument, trimmed of
 surrounding blanks: nested parentheses and commas inside them do not split arguments. -/
 theorem function_like_is_substitution (pre post : List Entry) (m : Macro) (before blanks after : List PTok)
     (as : List (List PTok)) (b b2 b3 : Bool)
     (hpre : ∀ e ∈ pre, e.m.name ≠ m.name) (hfn : m.isFunction = true)
     (hne : as ≠ []) (harity : m.numParams = as.length)
-    (hblanks : ∀ t ∈ blanks, t.tok = .ws)
+    (hblanks : ∀ t ∈ blanks, t.tok.isWhitespace = true)
     (hargs : ∀ a ∈ as, IsArg a ∧ Inert (pre ++ ⟨m, false⟩ :: post) a)
     (hbody : ∀ t ∈ m.body, (∃ i, t.tok = .arg i ∧ i < m.numParams) ∨
       ((∀ i, t.tok ≠ .arg i) ∧ InertTok (pre ++ ⟨m, false⟩ :: post) t))
@@ -168,9 +188,9 @@ theorem function_like_is_substitution (pre post : List Entry) (m : Macro) (befor
   have hdrop : (before ++ call ++ after).drop (before.length + 1) =
       blanks ++ ⟨.lparen, b2⟩ :: (joinArgs as ++ ⟨.rparen, b3⟩ :: after) := by
     simp [call, List.append_assoc]
-  have htrim : trimStart ((before ++ call ++ after).drop (before.length + 1)) =
+  have htrim : trimStartAll ((before ++ call ++ after).drop (before.length + 1)) =
       ⟨.lparen, b2⟩ :: (joinArgs as ++ ⟨.rparen, b3⟩ :: after) := by
-    rw [hdrop]; exact trimStart_blanks _ _ hblanks _ rfl
+    rw [hdrop]; exact trimStartAll_whitespace _ _ hblanks _ rfl
   have hargsInert : ∀ a ∈ as.map trim, Inert env a := by
     intro a ha
     obtain ⟨x, hx, rfl⟩ := List.mem_map.mp ha
@@ -340,7 +360,9 @@ theorem directive_takes_effect_from_its_line (inc : String → State → Except 
 before the first line of the entry file: processing the entry file after installing the API list gives the same
 result -- same output tokens, same macro list, same once-set, or the same error (e.g. `InvalidDefine` for a name that
 is not an identifier) -- as processing the file with the lines `#define name value` put in front of it.
-Any API list (repeated names, values with `##`, blanks, empty values, names that are not single identifiers).
+Any API list (repeated names, values with `##`, blanks, empty values, names that are not single identifiers) whose
+entries are single lines (`hline`: no line end among the tokens -- a `#define` line cannot hold one; an entry with a line
+break is rejected since fix 3c81ed5: `api_define_with_line_break_is_rejected`).
 "Modulo locations": since the 9f7cdb8 fix the tokens of an API define carry a real location (the file `<define>`), so the
 only location fact the model tracks -- has one / has none -- is the same on both sides; the locations themselves
 differ (that is C14's subject).
@@ -350,13 +372,13 @@ end is emitted on the left side only -- a white-space token, invisible after `pr
 in front of this processing of the entry file; a nested `#include` of the entry file itself sees the file as the
 handler delivers it, on both sides. -/
 theorem api_defines_equal_file_defines (inc : String → State → Except Err State) (entry : String)
-    (api : List ApiDefine) (lines : List Line) (hne : lines ≠ []) :
+    (api : List ApiDefine) (lines : List Line) (hne : lines ≠ []) (hline : ∀ d ∈ api, hasLineBreak d = false) :
     runInitial inc entry api lines =
       runFile inc entry { macros := [], out := [], once := [] } (api.map defineLineOf ++ lines) := by
   have hne' : api.map defineLineOf ++ lines ≠ [] := by
     intro h; exact hne (List.append_eq_nil_iff.mp h).2
   unfold runInitial runFile
-  rw [fileStart_of_ne_nil hne', foldLines_defines]
+  rw [fileStart_of_ne_nil hne', foldLines_defines _ _ _ _ _ _ _ hline]
   cases initialMacros [] api with
   | error e => rfl
   | ok ms => simp only [fileStart_of_ne_nil hne]
@@ -366,23 +388,55 @@ theorem api_defines_equal_file_defines (inc : String → State → Except Err St
 rest of the compiler sees: the macro list, the once-set and the tokens after `prepare_tokens` (which drops white
 space -- the only difference for an empty entry file is the line end the lexer adds to an empty file). -/
 theorem api_defines_equal_file_defines_tokens (inc : String → State → Except Err State) (entry : String)
-    (api : List ApiDefine) (lines : List Line) :
+    (api : List ApiDefine) (lines : List Line) (hline : ∀ d ∈ api, hasLineBreak d = false) :
     (runInitial inc entry api lines).map (fun st => (st.macros, st.once, prepare st.out)) =
       (runFile inc entry { macros := [], out := [], once := [] } (api.map defineLineOf ++ lines)).map
         (fun st => (st.macros, st.once, prepare st.out)) := by
   cases lines with
-  | cons l ls => rw [api_defines_equal_file_defines inc entry api (l :: ls) (by simp)]
+  | cons l ls => rw [api_defines_equal_file_defines inc entry api (l :: ls) (by simp) hline]
   | nil =>
     cases api with
     | nil => rfl
     | cons d ds =>
       unfold runInitial runFile
-      rw [fileStart_of_ne_nil (by simp : (d :: ds).map defineLineOf ++ [] ≠ []), foldLines_defines]
+      rw [fileStart_of_ne_nil (by simp : (d :: ds).map defineLineOf ++ [] ≠ []), foldLines_defines _ _ _ _ _ _ _ hline]
       cases initialMacros [] (d :: ds) with
       | error e => rfl
       | ok ms =>
         simp only [foldLines, fileStart, flush, applyMacros_eol, applyMacros_nil, Except.map]
         rfl
+
+/-- **api_define_with_line_break_is_rejected** (fix 3c81ed5).  A define is a single line: an API list with an entry
+whose name or value holds a line end is rejected with `InvalidDefine` as soon as that entry is reached (the entries
+before it are single lines that parse) -- whatever the entry file and the later entries are.  (Before the fix the
+line end stayed in the replacement list.) -/
+theorem api_define_with_line_break_is_rejected (inc : String → State → Except Err State) (entry : String)
+    (pre post : List ApiDefine) (d : ApiDefine) (lines : List Line) (ms : List Macro)
+    (hpre : initialMacros [] pre = .ok ms) (hd : hasLineBreak d = true) :
+    runInitial inc entry (pre ++ d :: post) lines = .error .invalidDefine := by
+  have key : ∀ (pre : List ApiDefine) (m0 ms : List Macro), initialMacros m0 pre = .ok ms →
+      initialMacros m0 (pre ++ d :: post) = .error .invalidDefine := by
+    intro pre
+    induction pre with
+    | nil => intro m0 ms _; simp [initialMacros, hd]
+    | cons x xs ih =>
+      intro m0 ms h
+      simp only [initialMacros, List.cons_append] at h ⊢
+      split at h
+      · cases h
+      · rename_i hx
+        simp only [hx, if_false]
+        cases hdx : doDefine m0 (apiCommand x) with
+        | error e => simp [hdx] at h
+        | ok m1 =>
+          simp only [hdx] at h ⊢
+          exact ih m1 ms h
+  unfold runInitial
+  rw [key pre [] ms hpre]
+
+/-- non-vacuity: `A=1` then `B=2⏎` -/
+example : initialMacros [] [⟨[.id "A"], [.int "1"]⟩, ⟨[.id "B"], [.int "2", .endline]⟩] = .error .invalidDefine := by
+  rfl
 
 /-- examples of the fixed behaviour (these were defects of the tree before 9f7cdb8, see notes/C12.md):
 a name listed twice -- the later entry replaces the earlier one; `##` in a value is the paste operator;
@@ -649,9 +703,9 @@ end Examples
 (`early_function_pos` / `last_macro_function_index`).  After an invocation was replaced by its expansion
 `R0 ++ g :: blanks` (`P`: the tokens before it; `next_pos` behind the expansion, `early_function_pos` at its start,
 `lastFn`: the macro just applied if it is function-like): if `g` is the name of an enabled function-like macro other
-than the one just applied, only blanks (white space, comments) follow it inside the expansion -- e.g. what is left of
-an empty argument or of a macro with an empty replacement list -- and the text behind the expansion starts, after
-blanks, with `(`, then `find_single_macro` reports an invocation of that macro at the position of `g`; whatever
+than the one just applied, only white space (blanks, comments, line ends) follows it inside the expansion -- e.g. what
+is left of an empty argument or of a macro with an empty replacement list -- and the next token of the text behind the
+expansion that is not white space is `(` (`startsParen`: since fix f08088c line ends are skipped here too), then `find_single_macro` reports an invocation of that macro at the position of `g`; whatever
 precedes `g` in the expansion cannot be invoked (its `(` would lie inside the expansion).  The loop then reads the
 arguments from the text behind the expansion (`applyLoop_user_step`).
 Whether C does the same depends on the hide set of `g` and on what followed `g` when C looked at it:
@@ -660,14 +714,61 @@ inputs where it does not, `agrees_on_invocation_completed_after_expansion` input
 theorem trailing_function_name_is_invoked (env : List Entry) (P R0 blanks rest : List PTok) (g : String) (b : Bool)
     (mj : Nat) (e : Entry) (lastFn : Option Nat)
     (hsel : Selects env g mj e) (hfn : e.m.isFunction = true) (hlast : lastFn ≠ some mj)
-    (hnc : NoConcat R0) (hblank : ∀ t ∈ blanks, t.tok.isBlank = true)
-    (hparen : ∃ b' tail, trimStart rest = ⟨.lparen, b'⟩ :: tail) :
+    (hnc : NoConcat R0) (hblank : ∀ t ∈ blanks, t.tok.isWhitespace = true)
+    (hparen : startsParen rest = true) :
     findSingle (P ++ (R0 ++ ⟨.id g, b⟩ :: blanks) ++ rest)
       ⟨P.length + (R0 ++ ⟨.id g, b⟩ :: blanks).length, P.length, lastFn⟩ env =
       .ok (.user mj (P.length + R0.length)) :=
-  early_scan_finds_trailing_name env P R0 blanks rest g b mj e lastFn hsel hfn hlast hnc hblank hparen
+  early_scan_finds_trailing_name env P R0 blanks rest g b mj e lastFn hsel hfn hlast hnc hblank
+    (trimStartAll_of_startsParen rest hparen)
 
 
+
+theorem scanArgs_error (ts cur : List PTok) (args : List (List PTok)) (d : Nat) (e : Err)
+    (h : scanArgs ts cur args d = .error e) : e = .macroArgumentsNeverEnd := by
+  induction ts generalizing cur args d with
+  | nil => simp only [scanArgs, Except.error.injEq] at h; exact h.symm
+  | cons t ts ih =>
+    unfold scanArgs at h
+    split at h
+    · split at h <;> exact ih _ _ _ h
+    · exact ih _ _ _ h
+    · split at h
+      · cases h
+      · exact ih _ _ _ h
+    · exact ih _ _ _ h
+
+/-- **invocation_may_continue_on_next_line** (fix f08088c; the positive form of the former deviation
+`line-end-before-parenthesis`).  Both places that look for the `(` of a function-like macro invocation read it the way
+C does -- "the next token that is not white space is `(`", where white space is blanks, comments *and line ends*
+(`startsParen`, the reference's reading): `find_single_macro` finds an `activate_pos` behind the name at `i` exactly
+then, and `split_macro_args` answers `MacroRequiresArguments` exactly when it is not so.  For every token list. -/
+theorem invocation_may_continue_on_next_line (toks : List PTok) (i : Nat) (name : String) :
+    (parenAfter toks i).isSome = startsParen (toks.drop (i + 1)) ∧
+    (splitArgs name (toks.drop (i + 1)) = .error (.macroRequiresArguments name) ↔
+      startsParen (toks.drop (i + 1)) = false) := by
+  refine ⟨parenAfter_iff_startsParen toks i, ?_⟩
+  constructor
+  · intro h
+    cases hsp : startsParen (toks.drop (i + 1)) with
+    | false => rfl
+    | true =>
+      obtain ⟨b, tail, ht⟩ := trimStartAll_of_startsParen _ hsp
+      unfold splitArgs at h
+      rw [ht] at h
+      have := scanArgs_error _ _ _ _ _ h
+      cases this
+  · intro h
+    unfold splitArgs
+    split
+    · rename_i b tail ht
+      have := startsParen_of_trimStartAll _ _ _ ht
+      rw [h] at this; cases this
+    · rfl
+
+/-- non-vacuity: `F` blank, line end, line end, `(` -/
+example : (parenAfter [⟨.id "F", true⟩, ⟨.ws, true⟩, ⟨.endline, true⟩, ⟨.endline, true⟩, ⟨.lparen, true⟩,
+    ⟨.int "1", true⟩, ⟨.rparen, true⟩] 0) = some 4 := by decide
 
 /-- **parse_yields_wellformed_macro.** The hypothesis `WFMacro` of the refinement theorems is what `Macro::parse`
 guarantees: for a `#define` (or API define) whose tokens are as the lexer produces them (no `MacroArg`, no `Concat`;
@@ -832,17 +933,18 @@ end ExamplesP
 
 /-! ## Inclusion -/
 
-/-- **include_is_paste.** If `#include "f"` succeeds (the file loads, is not marked `#pragma once`, and has no
+/-- **include_is_paste.** If `#include "f"` succeeds (the file loads -- `real`: the real name the include handler
+reports for it, which is the file's identity since fix d66a6d7 --, is not marked `#pragma once`, and has no
 top-level `#pragma once` line of its own), then replacing the directive by the lines of `f`, placed between two
 directives without effect (`#pragma warning`: they stand for the two block boundaries the inclusion creates --
 macro invocations do not span the start or the end of an included file), gives exactly the same state: same output
 tokens, same macro list, same once-set.  (`pre`, `post`: the lines before and after the directive; nested
 includes inside `f` are processed by the same recursive call on both sides.) -/
-theorem include_is_paste (h : Handler) (fuel : Nat) (cur f : String) (lines pre post : List Line)
+theorem include_is_paste (h : Handler) (fuel : Nat) (cur f real : String) (lines pre post : List Line)
     (s r : State × List PTok)
-    (hload : h f = some lines)
+    (hload : h f = some (real, lines))
     (hnot : ∀ s' : State × List PTok,
-        foldLines (includeFile h (fuel + 1)) cur s pre = .ok s' → s'.1.once.contains f = false)
+        foldLines (includeFile h (fuel + 1)) cur s pre = .ok s' → s'.1.once.contains real = false)
     (hne : lines ≠ []) (hno : Line.pragmaOnce ∉ lines)
     (hrun : foldLines (includeFile h (fuel + 1)) cur s (pre ++ [.incl f] ++ post) = .ok r) :
     foldLines (includeFile h (fuel + 1)) cur s
@@ -859,7 +961,7 @@ theorem include_is_paste (h : Handler) (fuel : Nat) (cur f : String) (lines pre 
     | error e => simp [hfl] at hrun
     | ok st2 =>
       simp only [hfl] at hrun ⊢
-      have honce : st2.once.contains f = false := by
+      have honce : st2.once.contains real = false := by
         have := hnot _ hpre
         simpa [flush_once hfl] using this
       simp only [includeFile, hload, honce, Bool.false_eq_true, if_false] at hrun
@@ -869,15 +971,15 @@ theorem include_is_paste (h : Handler) (fuel : Nat) (cur f : String) (lines pre 
         | cons _ _ => rfl
       simp only [runFile, hstart] at hrun
       rw [foldLines_append]
-      cases hin : foldLines (includeFile h fuel) f (st2, []) lines with
+      cases hin : foldLines (includeFile h fuel) real (st2, []) lines with
       | error e => simp [hin] at hrun
       | ok s3 =>
         obtain ⟨st3, act3⟩ := s3
         simp only [hin] at hrun
         -- the same lines, read as part of the including file and with one more unit of fuel
         have h1 : foldLines (includeFile h (fuel + 1)) cur (st2, []) lines = .ok (st3, act3) := by
-          rw [foldLines_cur_irrelevant _ cur f _ _ hno]
-          exact foldLines_mono (includeFile_fuel_mono h fuel) f _ lines _ hin
+          rw [foldLines_cur_irrelevant _ cur real _ _ hno]
+          exact foldLines_mono (includeFile_fuel_mono h fuel) real _ lines _ hin
         simp only [h1, foldLines, stepLine]
         cases hfl3 : flush st3 act3 with
         | error e => simp [hfl3] at hrun
@@ -888,43 +990,50 @@ theorem include_is_paste (h : Handler) (fuel : Nat) (cur f : String) (lines pre 
 
 /-- **include_of_empty_file.** The case `include_is_paste` leaves out: a file without lines contributes exactly the
 line end the lexer adds to an empty file (white space: nothing after `prepare_tokens`), no macro, no once-mark. -/
-theorem include_of_empty_file (h : Handler) (fuel : Nat) (f : String) (st : State) (hload : h f = some []) :
+theorem include_of_empty_file (h : Handler) (fuel : Nat) (f real : String) (st : State)
+    (hload : h f = some (real, [])) :
     includeFile h (fuel + 1) f st = .ok { st with out := st.out ++ [eol] } := by
   simp only [includeFile, hload, runFile, fileStart, foldLines, flush, applyMacros_eol, ite_self]
 
-/-- **pragma_once_once.** Once a file with a top-level `#pragma once` line has been processed, it is in the once-set,
-it stays there for the rest of the compilation (the set only grows, through every nested include), and every later
-`#include` of it contributes nothing but the line end the lexer adds to an empty file: no macro is defined or
-removed and no other token is emitted. -/
-theorem pragma_once_once (h : Handler) (fuel : Nat) (f : String) (lines : List Line) (st st1 : State)
-    (hload : h f = some lines) (hmem : Line.pragmaOnce ∈ lines) (hfresh : st.once.contains f = false)
+/-- **pragma_once_once.** Once a file with a top-level `#pragma once` line has been processed, it -- the file the
+include handler says it really is (`real`, fix d66a6d7: the once-set holds file identities, not include names) -- is in
+the once-set, it stays there for the rest of the compilation (the set only grows, through every nested include), and
+every later `#include` that reaches this file, *under the same or any other include name `g`*, contributes nothing but
+the line end the lexer adds to an empty file: no macro is defined or removed and no other token is emitted.
+(The positive form of the former deviation `pragma-once-by-include-name`.) -/
+theorem pragma_once_once (h : Handler) (fuel : Nat) (f real : String) (lines : List Line) (st st1 : State)
+    (hload : h f = some (real, lines)) (hmem : Line.pragmaOnce ∈ lines) (hfresh : st.once.contains real = false)
     (hrun : includeFile h (fuel + 1) f st = .ok st1) :
-    f ∈ st1.once ∧
-    (∀ (fuel' : Nat) (g : String) (st2 : State), includeFile h fuel' g st1 = .ok st2 → f ∈ st2.once) ∧
-    (∀ (fuel' : Nat) (st2 : State), f ∈ st2.once →
-      includeFile h (fuel' + 1) f st2 = .ok { st2 with out := st2.out ++ [eol] }) := by
-  refine ⟨?_, ?_, ?_⟩
-  · simp only [includeFile, hload, hfresh, Bool.false_eq_true, if_false, runFile] at hrun
-    cases hin : foldLines (includeFile h fuel) f (st, fileStart lines) lines with
+    real ∈ st1.once ∧
+    (∀ (fuel' : Nat) (g : String) (st2 : State), includeFile h fuel' g st1 = .ok st2 → real ∈ st2.once) ∧
+    (∀ (fuel' : Nat) (g : String) (lines' : List Line) (st2 : State), h g = some (real, lines') → real ∈ st2.once →
+      includeFile h (fuel' + 1) g st2 = .ok { st2 with out := st2.out ++ [eol] }) := by
+  have h1 : real ∈ st1.once := by
+    simp only [includeFile, hload, hfresh, Bool.false_eq_true, if_false, runFile] at hrun
+    cases hin : foldLines (includeFile h fuel) real (st, fileStart lines) lines with
     | error e => simp [hin] at hrun
     | ok s3 =>
       obtain ⟨st3, act3⟩ := s3
       simp only [hin] at hrun
-      have := foldLines_marks (includeFile_onceGrows h fuel) f _ _ lines hmem hin
+      have := foldLines_marks (includeFile_onceGrows h fuel) real _ _ lines hmem hin
       simpa [flush_once hrun] using this
+  refine ⟨h1, ?_, ?_⟩
   · intro fuel' g st2 hr
-    have h1 : f ∈ st1.once := by
-      simp only [includeFile, hload, hfresh, Bool.false_eq_true, if_false, runFile] at hrun
-      cases hin : foldLines (includeFile h fuel) f (st, fileStart lines) lines with
-      | error e => simp [hin] at hrun
-      | ok s3 =>
-        obtain ⟨st3, act3⟩ := s3
-        simp only [hin] at hrun
-        have := foldLines_marks (includeFile_onceGrows h fuel) f _ _ lines hmem hin
-        simpa [flush_once hrun] using this
-    exact includeFile_onceGrows h fuel' g st1 st2 hr f h1
-  · intro fuel' st2 hin
-    have hc : st2.once.contains f = true := by simpa using hin
-    simp only [includeFile, hload, hc, if_true, runFile, fileStart, foldLines, flush, applyMacros_eol]
+    exact includeFile_onceGrows h fuel' g st1 st2 hr real h1
+  · intro fuel' g lines' st2 hg hin
+    have hc : st2.once.contains real = true := by simpa using hin
+    simp only [includeFile, hg, hc, if_true, runFile, fileStart, foldLines, flush, applyMacros_eol]
+
+/-- non-vacuity of the alias case: `h.h` = `#pragma once`, reached as `h.h` and as `dir/../h.h`: processing it under
+the first name marks the real file, under the second name it then contributes one line end (before fix d66a6d7 it was
+processed again) -/
+example :
+    let hh : Handler := fun n => if n = "h.h" ∨ n = "dir/../h.h" then some ("h.h", [.pragmaOnce]) else none
+    includeFile hh 1 "h.h" ⟨[], [], []⟩ = .ok ⟨[], [], ["h.h"]⟩ ∧
+    includeFile hh 1 "dir/../h.h" ⟨[], [], ["h.h"]⟩ = .ok ⟨[], [eol], ["h.h"]⟩ := by
+  intro hh
+  constructor
+  · simp [hh, includeFile, runFile, fileStart, foldLines, stepLine, flush_nil]
+  · simp [hh, includeFile, runFile, fileStart, foldLines, flush, applyMacros_eol]
 
 end RsslVerif.Thm.C12
